@@ -93,8 +93,10 @@ def check_relations(ctx, s, name, Hkl, exact_power, tag, closed_form=False):
         ctx.ev("power-limit", pw <= P[k] * (1 + 1e-9), cls=name + ":exceeds",
                detail=d(user=k, power=pw, P=P))
         if exact_power:
-            ctx.within("power-limit", fro(fFk - math.sqrt(P[k]) * Fk), 64 * EPS * Nt_k *
-                       math.sqrt(P[k]), name + ":full_F!=sqrt(P)F", d(user=k, P=P, power=pw))
+            # (after a stream reduction F and full_F come from two separate SVDs,
+            #  whose singular vectors agree to eps / relative gap, not to 64 eps)
+            ctx.within("power-limit", fro(fFk - math.sqrt(P[k]) * Fk), 1e-10 * math.sqrt(P[k]),
+                       name + ":full_F!=sqrt(P)F", d(user=k, P=P, power=pw))
         else:
             # MMSE: same direction, power at most P
             ctx.within("power-limit", fro(fFk / max(fro(fFk), 1e-300) - Fk), 1e-9,
